@@ -73,6 +73,8 @@ follows::
     prey = environment.getAgents(tag = Tags.PREY)
 """
 
+import sys
+
 
 class TagLibrary:
 
@@ -115,8 +117,8 @@ class TagLibrary:
             If a tag_name that already exists is used.
         """
 
-        # Check for duplicates
-        if tag_name in self.__dict__:
+        # Check for duplicates (a name the class itself defines, e.g. 'itemize' or '__class__', is taken too)
+        if tag_name in self.__dict__ or any(tag_name in vars(c) for c in type(self).__mro__):
             raise DuplicateTagError(tag_name)
         else:
             self.__dict__[tag_name] = self._tag_counter
@@ -220,6 +222,9 @@ def add_tag(tag_name: str):
     DuplicateTagError
         If a tag_name that already exists is used.
     """
+    # ``Tags.<tag_name>`` would resolve to an attribute of the module (or of the module type), not to the tag
+    if tag_name in globals() or any(tag_name in vars(c) for c in type(sys.modules[__name__]).__mro__):
+        raise DuplicateTagError(tag_name)
     _module_library.add_tag(tag_name)
 
 
